@@ -206,7 +206,7 @@ Theorem no_lost_wakeup : forall s, reach s ->
   (* the engine thread blocked in mainLoop with a search or quit request pending has its flag
      set, or the UCI thread is just about to call notify *)
   (pc (th s 0) = PWait KTop -> (search s = true \/ quitf s = true) ->
-     flag s 0 = true \/ epc s = ENotifyGo).
+     flag s 0 = true \/ epc s <> EIdle).
 Proof.
   intros s R. destruct (reach_inv s R) as (I & J & L). repeat split.
   - intros c Hc Hpc [Hq|[Hj|Hs]].
